@@ -2,8 +2,10 @@
 # tools/runall.sh [quick|thorough]  - runs every registered check in order and prints one line each
 cd "$(dirname "${BASH_SOURCE[0]}")/.."
 tier="${1:-quick}"
+worst=0
 for id in $(jq -r '.checks[].property_id' MANIFEST.json); do
   out=$(bin/check.sh "$id" "$tier" 2>&1); rc=$?
   echo "rc=$rc $(echo "$out" | grep "^$id $tier:" | tail -1)"
-  [ $rc -ne 0 ] && echo "$out" | grep -v "^  " | head -5
+  if [ $rc -ne 0 ]; then echo "$out" | grep -v "^  " | head -5; [ $rc -gt $worst ] && worst=$rc; fi
 done
+exit $worst
